@@ -278,6 +278,44 @@ def oracleStep (o : OState) (i : Nat) (op : Op) (obs : String) (pl : Option (Byt
   | .c => checkCheckpoint o i obs
   | .bad => o
 
+/-- C15 footprint on the implementation's own journal of physical operations (independent of the model): during
+    `WriteSector(x,z,data)` the only operations allowed are writes inside the header slot of (x,z), inside its timestamp
+    slot, or inside ONE run of `need(len)` sectors after the two header sectors; no other kind of operation (Truncate),
+    and nothing at all when the write is refused or panics. -/
+def footprintViolation (op : Op) (res : String) (journal : String) : Option String :=
+  match op with
+  | .w x z _ len =>
+    let items := if journal == "-" then [] else journal.splitOn "/"
+    if res != "ok" then
+      if items.isEmpty then none else some s!"a write that returned {res} issued physical operations {journal}"
+    else
+    match idx? x z with
+    | none => if items.isEmpty then none else some s!"physical operations {journal} for out-of-range coordinates"
+    | some k =>
+      let need := (len + 4 + 4095) / 4096
+      let step (acc : Option Nat × Option String) (it : String) : Option Nat × Option String :=
+        match acc.2 with
+        | some _ => acc
+        | none =>
+          match it.splitOn ":" with
+          | ["t", sz] => (acc.1, some s!"Truncate({sz}) issued inside WriteSector: a physical operation outside the footprint")
+          | [a, b] =>
+            match a.toNat?, b.toNat? with
+            | some off, some n =>
+              if 4 * k ≤ off && off + n ≤ 4 * k + 4 then acc
+              else if 4096 + 4 * k ≤ off && off + n ≤ 4096 + 4 * k + 4 then acc
+              else if off < 8192 then (acc.1, some s!"write {it} inside the header, outside the slots of chunk {k}")
+              else
+                let s0 := match acc.1 with
+                  | some s0 => s0
+                  | none => off / 4096
+                if 4096 * s0 ≤ off && off + n ≤ 4096 * (s0 + need) then (some s0, none)
+                else (some s0, some s!"write {it} outside the run of {need} sectors at sector {s0}")
+            | _, _ => (acc.1, some s!"unreadable journal item {it}")
+          | _ => (acc.1, some s!"unreadable journal item {it}")
+      (items.foldl step (none, none)).2
+  | _ => none
+
 def showRes : Res Unit → String
   | .ok _ => "ok"
   | .err => "err"
@@ -341,12 +379,15 @@ def runHist (crash : Option Nat) (ops : List String) (obsL : List String) : Verd
     match crash, op with
     | some _, .w .. =>
       match obs.splitOn ";" with
-      | [res, _, c] =>
+      | [res, wj, c] =>
         o := oracleStep o i op res pl
         match (c.drop 2).toString.splitOn ":" with
         | [_, "0", _] => pure ()
-        | [pts, bad, _] => o := o.fail s!"op {i}: {bad} of {pts} crash images damage another chunk (read in either order)"
+        | [pts, bad, _] => o := o.fail s!"op {i}: {bad} of {pts} crash images damage another chunk (read in either order); journal {wj}"
         | _ => o := o.fail s!"op {i}: unreadable observation"
+        match footprintViolation op res ((wj.drop 2).toString) with
+        | some why => o := o.fail s!"op {i}: {why}"
+        | none => pure ()
       | _ => o := o.fail s!"op {i}: unreadable observation {obs}"
     | _, _ => o := oracleStep o i op obs pl
     i := i + 1
@@ -357,7 +398,7 @@ def handle (op : String) (args : List String) (obs : String) : Option Verdict :=
   | "region.hist", [_, ops] =>
     some (runHist none ((ops.drop 4).toString.splitOn ",") (obs.splitOn ","))
   | "region.crash", [cuts, ops] =>
-    let mc := match (cuts.drop 5).toString.toNat? with
+    let mc := match (((cuts.drop 5).toString.splitOn ":").headD "").toNat? with
       | some n => n
       | none => 0
     some (runHist (some mc) ((ops.drop 4).toString.splitOn ",") (obs.splitOn ","))
